@@ -2698,6 +2698,786 @@ const uint32_t InstDB::_inst_name_index_table[] = {
   0x800E413A, // Small 'zip1'.
   0x800EC13A  // Small 'zip2'.
 };
+
+const uint16_t InstDB::_inst_name_sorted_id_table[] = {
+  Inst::kIdAbs, // #0
+  Inst::kIdAbs_v, // #1
+  Inst::kIdAdc, // #2
+  Inst::kIdAdcs, // #3
+  Inst::kIdAdd, // #4
+  Inst::kIdAdd_v, // #5
+  Inst::kIdAddg, // #6
+  Inst::kIdAddhn_v, // #7
+  Inst::kIdAddhn2_v, // #8
+  Inst::kIdAddp_v, // #9
+  Inst::kIdAdds, // #10
+  Inst::kIdAddv_v, // #11
+  Inst::kIdAdr, // #12
+  Inst::kIdAdrp, // #13
+  Inst::kIdAesd_v, // #14
+  Inst::kIdAese_v, // #15
+  Inst::kIdAesimc_v, // #16
+  Inst::kIdAesmc_v, // #17
+  Inst::kIdAnd, // #18
+  Inst::kIdAnd_v, // #19
+  Inst::kIdAnds, // #20
+  Inst::kIdAsr, // #21
+  Inst::kIdAsrv, // #22
+  Inst::kIdAt, // #23
+  Inst::kIdAutda, // #24
+  Inst::kIdAutdb, // #25
+  Inst::kIdAutdza, // #26
+  Inst::kIdAutdzb, // #27
+  Inst::kIdAutia, // #28
+  Inst::kIdAutia1716, // #29
+  Inst::kIdAutiasp, // #30
+  Inst::kIdAutiaz, // #31
+  Inst::kIdAutib, // #32
+  Inst::kIdAutib1716, // #33
+  Inst::kIdAutibsp, // #34
+  Inst::kIdAutibz, // #35
+  Inst::kIdAutiza, // #36
+  Inst::kIdAutizb, // #37
+  Inst::kIdAxflag, // #38
+  Inst::kIdB, // #39
+  Inst::kIdBc, // #40
+  Inst::kIdBcax_v, // #41
+  Inst::kIdBfc, // #42
+  Inst::kIdBfcvt_v, // #43
+  Inst::kIdBfcvtn_v, // #44
+  Inst::kIdBfcvtn2_v, // #45
+  Inst::kIdBfdot_v, // #46
+  Inst::kIdBfi, // #47
+  Inst::kIdBfm, // #48
+  Inst::kIdBfmlalb_v, // #49
+  Inst::kIdBfmlalt_v, // #50
+  Inst::kIdBfmmla_v, // #51
+  Inst::kIdBfxil, // #52
+  Inst::kIdBic, // #53
+  Inst::kIdBic_v, // #54
+  Inst::kIdBics, // #55
+  Inst::kIdBif_v, // #56
+  Inst::kIdBit_v, // #57
+  Inst::kIdBl, // #58
+  Inst::kIdBlr, // #59
+  Inst::kIdBr, // #60
+  Inst::kIdBrk, // #61
+  Inst::kIdBsl_v, // #62
+  Inst::kIdBti, // #63
+  Inst::kIdCas, // #64
+  Inst::kIdCasa, // #65
+  Inst::kIdCasab, // #66
+  Inst::kIdCasah, // #67
+  Inst::kIdCasal, // #68
+  Inst::kIdCasalb, // #69
+  Inst::kIdCasalh, // #70
+  Inst::kIdCasb, // #71
+  Inst::kIdCash, // #72
+  Inst::kIdCasl, // #73
+  Inst::kIdCaslb, // #74
+  Inst::kIdCaslh, // #75
+  Inst::kIdCasp, // #76
+  Inst::kIdCaspa, // #77
+  Inst::kIdCaspal, // #78
+  Inst::kIdCaspl, // #79
+  Inst::kIdCbnz, // #80
+  Inst::kIdCbz, // #81
+  Inst::kIdCcmn, // #82
+  Inst::kIdCcmp, // #83
+  Inst::kIdCfinv, // #84
+  Inst::kIdChkfeat, // #85
+  Inst::kIdCinc, // #86
+  Inst::kIdCinv, // #87
+  Inst::kIdClrbhb, // #88
+  Inst::kIdClrex, // #89
+  Inst::kIdCls, // #90
+  Inst::kIdCls_v, // #91
+  Inst::kIdClz, // #92
+  Inst::kIdClz_v, // #93
+  Inst::kIdCmeq_v, // #94
+  Inst::kIdCmge_v, // #95
+  Inst::kIdCmgt_v, // #96
+  Inst::kIdCmhi_v, // #97
+  Inst::kIdCmhs_v, // #98
+  Inst::kIdCmle_v, // #99
+  Inst::kIdCmlt_v, // #100
+  Inst::kIdCmn, // #101
+  Inst::kIdCmp, // #102
+  Inst::kIdCmpp, // #103
+  Inst::kIdCmtst_v, // #104
+  Inst::kIdCneg, // #105
+  Inst::kIdCnt, // #106
+  Inst::kIdCnt_v, // #107
+  Inst::kIdCrc32b, // #108
+  Inst::kIdCrc32cb, // #109
+  Inst::kIdCrc32ch, // #110
+  Inst::kIdCrc32cw, // #111
+  Inst::kIdCrc32cx, // #112
+  Inst::kIdCrc32h, // #113
+  Inst::kIdCrc32w, // #114
+  Inst::kIdCrc32x, // #115
+  Inst::kIdCsdb, // #116
+  Inst::kIdCsel, // #117
+  Inst::kIdCset, // #118
+  Inst::kIdCsetm, // #119
+  Inst::kIdCsinc, // #120
+  Inst::kIdCsinv, // #121
+  Inst::kIdCsneg, // #122
+  Inst::kIdCtz, // #123
+  Inst::kIdDc, // #124
+  Inst::kIdDcps1, // #125
+  Inst::kIdDcps2, // #126
+  Inst::kIdDcps3, // #127
+  Inst::kIdDgh, // #128
+  Inst::kIdDmb, // #129
+  Inst::kIdDrps, // #130
+  Inst::kIdDsb, // #131
+  Inst::kIdDup_v, // #132
+  Inst::kIdEon, // #133
+  Inst::kIdEor, // #134
+  Inst::kIdEor_v, // #135
+  Inst::kIdEor3_v, // #136
+  Inst::kIdEret, // #137
+  Inst::kIdEsb, // #138
+  Inst::kIdExt_v, // #139
+  Inst::kIdExtr, // #140
+  Inst::kIdFabd_v, // #141
+  Inst::kIdFabs_v, // #142
+  Inst::kIdFacge_v, // #143
+  Inst::kIdFacgt_v, // #144
+  Inst::kIdFadd_v, // #145
+  Inst::kIdFaddp_v, // #146
+  Inst::kIdFcadd_v, // #147
+  Inst::kIdFccmp_v, // #148
+  Inst::kIdFccmpe_v, // #149
+  Inst::kIdFcmeq_v, // #150
+  Inst::kIdFcmge_v, // #151
+  Inst::kIdFcmgt_v, // #152
+  Inst::kIdFcmla_v, // #153
+  Inst::kIdFcmle_v, // #154
+  Inst::kIdFcmlt_v, // #155
+  Inst::kIdFcmp_v, // #156
+  Inst::kIdFcmpe_v, // #157
+  Inst::kIdFcsel_v, // #158
+  Inst::kIdFcvt_v, // #159
+  Inst::kIdFcvtas_v, // #160
+  Inst::kIdFcvtau_v, // #161
+  Inst::kIdFcvtl_v, // #162
+  Inst::kIdFcvtl2_v, // #163
+  Inst::kIdFcvtms_v, // #164
+  Inst::kIdFcvtmu_v, // #165
+  Inst::kIdFcvtn_v, // #166
+  Inst::kIdFcvtn2_v, // #167
+  Inst::kIdFcvtns_v, // #168
+  Inst::kIdFcvtnu_v, // #169
+  Inst::kIdFcvtps_v, // #170
+  Inst::kIdFcvtpu_v, // #171
+  Inst::kIdFcvtxn_v, // #172
+  Inst::kIdFcvtxn2_v, // #173
+  Inst::kIdFcvtzs_v, // #174
+  Inst::kIdFcvtzu_v, // #175
+  Inst::kIdFdiv_v, // #176
+  Inst::kIdFjcvtzs_v, // #177
+  Inst::kIdFmadd_v, // #178
+  Inst::kIdFmax_v, // #179
+  Inst::kIdFmaxnm_v, // #180
+  Inst::kIdFmaxnmp_v, // #181
+  Inst::kIdFmaxnmv_v, // #182
+  Inst::kIdFmaxp_v, // #183
+  Inst::kIdFmaxv_v, // #184
+  Inst::kIdFmin_v, // #185
+  Inst::kIdFminnm_v, // #186
+  Inst::kIdFminnmp_v, // #187
+  Inst::kIdFminnmv_v, // #188
+  Inst::kIdFminp_v, // #189
+  Inst::kIdFminv_v, // #190
+  Inst::kIdFmla_v, // #191
+  Inst::kIdFmlal_v, // #192
+  Inst::kIdFmlal2_v, // #193
+  Inst::kIdFmls_v, // #194
+  Inst::kIdFmlsl_v, // #195
+  Inst::kIdFmlsl2_v, // #196
+  Inst::kIdFmov_v, // #197
+  Inst::kIdFmsub_v, // #198
+  Inst::kIdFmul_v, // #199
+  Inst::kIdFmulx_v, // #200
+  Inst::kIdFneg_v, // #201
+  Inst::kIdFnmadd_v, // #202
+  Inst::kIdFnmsub_v, // #203
+  Inst::kIdFnmul_v, // #204
+  Inst::kIdFrecpe_v, // #205
+  Inst::kIdFrecps_v, // #206
+  Inst::kIdFrecpx_v, // #207
+  Inst::kIdFrint32x_v, // #208
+  Inst::kIdFrint32z_v, // #209
+  Inst::kIdFrint64x_v, // #210
+  Inst::kIdFrint64z_v, // #211
+  Inst::kIdFrinta_v, // #212
+  Inst::kIdFrinti_v, // #213
+  Inst::kIdFrintm_v, // #214
+  Inst::kIdFrintn_v, // #215
+  Inst::kIdFrintp_v, // #216
+  Inst::kIdFrintx_v, // #217
+  Inst::kIdFrintz_v, // #218
+  Inst::kIdFrsqrte_v, // #219
+  Inst::kIdFrsqrts_v, // #220
+  Inst::kIdFsqrt_v, // #221
+  Inst::kIdFsub_v, // #222
+  Inst::kIdGmi, // #223
+  Inst::kIdHint, // #224
+  Inst::kIdHlt, // #225
+  Inst::kIdHvc, // #226
+  Inst::kIdIc, // #227
+  Inst::kIdIns_v, // #228
+  Inst::kIdIsb, // #229
+  Inst::kIdLd1_v, // #230
+  Inst::kIdLd1r_v, // #231
+  Inst::kIdLd2_v, // #232
+  Inst::kIdLd2r_v, // #233
+  Inst::kIdLd3_v, // #234
+  Inst::kIdLd3r_v, // #235
+  Inst::kIdLd4_v, // #236
+  Inst::kIdLd4r_v, // #237
+  Inst::kIdLdadd, // #238
+  Inst::kIdLdadda, // #239
+  Inst::kIdLdaddab, // #240
+  Inst::kIdLdaddah, // #241
+  Inst::kIdLdaddal, // #242
+  Inst::kIdLdaddalb, // #243
+  Inst::kIdLdaddalh, // #244
+  Inst::kIdLdaddb, // #245
+  Inst::kIdLdaddh, // #246
+  Inst::kIdLdaddl, // #247
+  Inst::kIdLdaddlb, // #248
+  Inst::kIdLdaddlh, // #249
+  Inst::kIdLdar, // #250
+  Inst::kIdLdarb, // #251
+  Inst::kIdLdarh, // #252
+  Inst::kIdLdaxp, // #253
+  Inst::kIdLdaxr, // #254
+  Inst::kIdLdaxrb, // #255
+  Inst::kIdLdaxrh, // #256
+  Inst::kIdLdclr, // #257
+  Inst::kIdLdclra, // #258
+  Inst::kIdLdclrab, // #259
+  Inst::kIdLdclrah, // #260
+  Inst::kIdLdclral, // #261
+  Inst::kIdLdclralb, // #262
+  Inst::kIdLdclralh, // #263
+  Inst::kIdLdclrb, // #264
+  Inst::kIdLdclrh, // #265
+  Inst::kIdLdclrl, // #266
+  Inst::kIdLdclrlb, // #267
+  Inst::kIdLdclrlh, // #268
+  Inst::kIdLdeor, // #269
+  Inst::kIdLdeora, // #270
+  Inst::kIdLdeorab, // #271
+  Inst::kIdLdeorah, // #272
+  Inst::kIdLdeoral, // #273
+  Inst::kIdLdeoralb, // #274
+  Inst::kIdLdeoralh, // #275
+  Inst::kIdLdeorb, // #276
+  Inst::kIdLdeorh, // #277
+  Inst::kIdLdeorl, // #278
+  Inst::kIdLdeorlb, // #279
+  Inst::kIdLdeorlh, // #280
+  Inst::kIdLdg, // #281
+  Inst::kIdLdgm, // #282
+  Inst::kIdLdlar, // #283
+  Inst::kIdLdlarb, // #284
+  Inst::kIdLdlarh, // #285
+  Inst::kIdLdnp, // #286
+  Inst::kIdLdnp_v, // #287
+  Inst::kIdLdp, // #288
+  Inst::kIdLdp_v, // #289
+  Inst::kIdLdpsw, // #290
+  Inst::kIdLdr, // #291
+  Inst::kIdLdr_v, // #292
+  Inst::kIdLdraa, // #293
+  Inst::kIdLdrab, // #294
+  Inst::kIdLdrb, // #295
+  Inst::kIdLdrh, // #296
+  Inst::kIdLdrsb, // #297
+  Inst::kIdLdrsh, // #298
+  Inst::kIdLdrsw, // #299
+  Inst::kIdLdset, // #300
+  Inst::kIdLdseta, // #301
+  Inst::kIdLdsetab, // #302
+  Inst::kIdLdsetah, // #303
+  Inst::kIdLdsetal, // #304
+  Inst::kIdLdsetalb, // #305
+  Inst::kIdLdsetalh, // #306
+  Inst::kIdLdsetb, // #307
+  Inst::kIdLdseth, // #308
+  Inst::kIdLdsetl, // #309
+  Inst::kIdLdsetlb, // #310
+  Inst::kIdLdsetlh, // #311
+  Inst::kIdLdsmax, // #312
+  Inst::kIdLdsmaxa, // #313
+  Inst::kIdLdsmaxab, // #314
+  Inst::kIdLdsmaxah, // #315
+  Inst::kIdLdsmaxal, // #316
+  Inst::kIdLdsmaxalb, // #317
+  Inst::kIdLdsmaxalh, // #318
+  Inst::kIdLdsmaxb, // #319
+  Inst::kIdLdsmaxh, // #320
+  Inst::kIdLdsmaxl, // #321
+  Inst::kIdLdsmaxlb, // #322
+  Inst::kIdLdsmaxlh, // #323
+  Inst::kIdLdsmin, // #324
+  Inst::kIdLdsmina, // #325
+  Inst::kIdLdsminab, // #326
+  Inst::kIdLdsminah, // #327
+  Inst::kIdLdsminal, // #328
+  Inst::kIdLdsminalb, // #329
+  Inst::kIdLdsminalh, // #330
+  Inst::kIdLdsminb, // #331
+  Inst::kIdLdsminh, // #332
+  Inst::kIdLdsminl, // #333
+  Inst::kIdLdsminlb, // #334
+  Inst::kIdLdsminlh, // #335
+  Inst::kIdLdtr, // #336
+  Inst::kIdLdtrb, // #337
+  Inst::kIdLdtrh, // #338
+  Inst::kIdLdtrsb, // #339
+  Inst::kIdLdtrsh, // #340
+  Inst::kIdLdtrsw, // #341
+  Inst::kIdLdumax, // #342
+  Inst::kIdLdumaxa, // #343
+  Inst::kIdLdumaxab, // #344
+  Inst::kIdLdumaxah, // #345
+  Inst::kIdLdumaxal, // #346
+  Inst::kIdLdumaxalb, // #347
+  Inst::kIdLdumaxalh, // #348
+  Inst::kIdLdumaxb, // #349
+  Inst::kIdLdumaxh, // #350
+  Inst::kIdLdumaxl, // #351
+  Inst::kIdLdumaxlb, // #352
+  Inst::kIdLdumaxlh, // #353
+  Inst::kIdLdumin, // #354
+  Inst::kIdLdumina, // #355
+  Inst::kIdLduminab, // #356
+  Inst::kIdLduminah, // #357
+  Inst::kIdLduminal, // #358
+  Inst::kIdLduminalb, // #359
+  Inst::kIdLduminalh, // #360
+  Inst::kIdLduminb, // #361
+  Inst::kIdLduminh, // #362
+  Inst::kIdLduminl, // #363
+  Inst::kIdLduminlb, // #364
+  Inst::kIdLduminlh, // #365
+  Inst::kIdLdur, // #366
+  Inst::kIdLdur_v, // #367
+  Inst::kIdLdurb, // #368
+  Inst::kIdLdurh, // #369
+  Inst::kIdLdursb, // #370
+  Inst::kIdLdursh, // #371
+  Inst::kIdLdursw, // #372
+  Inst::kIdLdxp, // #373
+  Inst::kIdLdxr, // #374
+  Inst::kIdLdxrb, // #375
+  Inst::kIdLdxrh, // #376
+  Inst::kIdLsl, // #377
+  Inst::kIdLslv, // #378
+  Inst::kIdLsr, // #379
+  Inst::kIdLsrv, // #380
+  Inst::kIdMadd, // #381
+  Inst::kIdMla_v, // #382
+  Inst::kIdMls_v, // #383
+  Inst::kIdMneg, // #384
+  Inst::kIdMov, // #385
+  Inst::kIdMov_v, // #386
+  Inst::kIdMovi_v, // #387
+  Inst::kIdMovk, // #388
+  Inst::kIdMovn, // #389
+  Inst::kIdMovz, // #390
+  Inst::kIdMrs, // #391
+  Inst::kIdMsr, // #392
+  Inst::kIdMsub, // #393
+  Inst::kIdMul, // #394
+  Inst::kIdMul_v, // #395
+  Inst::kIdMvn, // #396
+  Inst::kIdMvn_v, // #397
+  Inst::kIdMvni_v, // #398
+  Inst::kIdNeg, // #399
+  Inst::kIdNeg_v, // #400
+  Inst::kIdNegs, // #401
+  Inst::kIdNgc, // #402
+  Inst::kIdNgcs, // #403
+  Inst::kIdNop, // #404
+  Inst::kIdNot_v, // #405
+  Inst::kIdOrn, // #406
+  Inst::kIdOrn_v, // #407
+  Inst::kIdOrr, // #408
+  Inst::kIdOrr_v, // #409
+  Inst::kIdPacda, // #410
+  Inst::kIdPacdb, // #411
+  Inst::kIdPacdza, // #412
+  Inst::kIdPacdzb, // #413
+  Inst::kIdPacga, // #414
+  Inst::kIdPmul_v, // #415
+  Inst::kIdPmull_v, // #416
+  Inst::kIdPmull2_v, // #417
+  Inst::kIdPrfm, // #418
+  Inst::kIdPssbb, // #419
+  Inst::kIdRaddhn_v, // #420
+  Inst::kIdRaddhn2_v, // #421
+  Inst::kIdRax1_v, // #422
+  Inst::kIdRbit, // #423
+  Inst::kIdRbit_v, // #424
+  Inst::kIdRet, // #425
+  Inst::kIdRev, // #426
+  Inst::kIdRev16, // #427
+  Inst::kIdRev16_v, // #428
+  Inst::kIdRev32, // #429
+  Inst::kIdRev32_v, // #430
+  Inst::kIdRev64, // #431
+  Inst::kIdRev64_v, // #432
+  Inst::kIdRor, // #433
+  Inst::kIdRorv, // #434
+  Inst::kIdRshrn_v, // #435
+  Inst::kIdRshrn2_v, // #436
+  Inst::kIdRsubhn_v, // #437
+  Inst::kIdRsubhn2_v, // #438
+  Inst::kIdSaba_v, // #439
+  Inst::kIdSabal_v, // #440
+  Inst::kIdSabal2_v, // #441
+  Inst::kIdSabd_v, // #442
+  Inst::kIdSabdl_v, // #443
+  Inst::kIdSabdl2_v, // #444
+  Inst::kIdSadalp_v, // #445
+  Inst::kIdSaddl_v, // #446
+  Inst::kIdSaddl2_v, // #447
+  Inst::kIdSaddlp_v, // #448
+  Inst::kIdSaddlv_v, // #449
+  Inst::kIdSaddw_v, // #450
+  Inst::kIdSaddw2_v, // #451
+  Inst::kIdSbc, // #452
+  Inst::kIdSbcs, // #453
+  Inst::kIdSbfiz, // #454
+  Inst::kIdSbfm, // #455
+  Inst::kIdSbfx, // #456
+  Inst::kIdScvtf_v, // #457
+  Inst::kIdSdiv, // #458
+  Inst::kIdSdot_v, // #459
+  Inst::kIdSetf16, // #460
+  Inst::kIdSetf8, // #461
+  Inst::kIdSev, // #462
+  Inst::kIdSevl, // #463
+  Inst::kIdSha1c_v, // #464
+  Inst::kIdSha1h_v, // #465
+  Inst::kIdSha1m_v, // #466
+  Inst::kIdSha1p_v, // #467
+  Inst::kIdSha1su0_v, // #468
+  Inst::kIdSha1su1_v, // #469
+  Inst::kIdSha256h_v, // #470
+  Inst::kIdSha256h2_v, // #471
+  Inst::kIdSha256su0_v, // #472
+  Inst::kIdSha256su1_v, // #473
+  Inst::kIdSha512h_v, // #474
+  Inst::kIdSha512h2_v, // #475
+  Inst::kIdSha512su0_v, // #476
+  Inst::kIdSha512su1_v, // #477
+  Inst::kIdShadd_v, // #478
+  Inst::kIdShl_v, // #479
+  Inst::kIdShll_v, // #480
+  Inst::kIdShll2_v, // #481
+  Inst::kIdShrn_v, // #482
+  Inst::kIdShrn2_v, // #483
+  Inst::kIdShsub_v, // #484
+  Inst::kIdSli_v, // #485
+  Inst::kIdSm3partw1_v, // #486
+  Inst::kIdSm3partw2_v, // #487
+  Inst::kIdSm3ss1_v, // #488
+  Inst::kIdSm3tt1a_v, // #489
+  Inst::kIdSm3tt1b_v, // #490
+  Inst::kIdSm3tt2a_v, // #491
+  Inst::kIdSm3tt2b_v, // #492
+  Inst::kIdSm4e_v, // #493
+  Inst::kIdSm4ekey_v, // #494
+  Inst::kIdSmaddl, // #495
+  Inst::kIdSmax, // #496
+  Inst::kIdSmax_v, // #497
+  Inst::kIdSmaxp_v, // #498
+  Inst::kIdSmaxv_v, // #499
+  Inst::kIdSmc, // #500
+  Inst::kIdSmin, // #501
+  Inst::kIdSmin_v, // #502
+  Inst::kIdSminp_v, // #503
+  Inst::kIdSminv_v, // #504
+  Inst::kIdSmlal_v, // #505
+  Inst::kIdSmlal2_v, // #506
+  Inst::kIdSmlsl_v, // #507
+  Inst::kIdSmlsl2_v, // #508
+  Inst::kIdSmmla_v, // #509
+  Inst::kIdSmnegl, // #510
+  Inst::kIdSmov_v, // #511
+  Inst::kIdSmsubl, // #512
+  Inst::kIdSmulh, // #513
+  Inst::kIdSmull, // #514
+  Inst::kIdSmull_v, // #515
+  Inst::kIdSmull2_v, // #516
+  Inst::kIdSqabs_v, // #517
+  Inst::kIdSqadd_v, // #518
+  Inst::kIdSqdmlal_v, // #519
+  Inst::kIdSqdmlal2_v, // #520
+  Inst::kIdSqdmlsl_v, // #521
+  Inst::kIdSqdmlsl2_v, // #522
+  Inst::kIdSqdmulh_v, // #523
+  Inst::kIdSqdmull_v, // #524
+  Inst::kIdSqdmull2_v, // #525
+  Inst::kIdSqneg_v, // #526
+  Inst::kIdSqrdmlah_v, // #527
+  Inst::kIdSqrdmlsh_v, // #528
+  Inst::kIdSqrdmulh_v, // #529
+  Inst::kIdSqrshl_v, // #530
+  Inst::kIdSqrshrn_v, // #531
+  Inst::kIdSqrshrn2_v, // #532
+  Inst::kIdSqrshrun_v, // #533
+  Inst::kIdSqrshrun2_v, // #534
+  Inst::kIdSqshl_v, // #535
+  Inst::kIdSqshlu_v, // #536
+  Inst::kIdSqshrn_v, // #537
+  Inst::kIdSqshrn2_v, // #538
+  Inst::kIdSqshrun_v, // #539
+  Inst::kIdSqshrun2_v, // #540
+  Inst::kIdSqsub_v, // #541
+  Inst::kIdSqxtn_v, // #542
+  Inst::kIdSqxtn2_v, // #543
+  Inst::kIdSqxtun_v, // #544
+  Inst::kIdSqxtun2_v, // #545
+  Inst::kIdSrhadd_v, // #546
+  Inst::kIdSri_v, // #547
+  Inst::kIdSrshl_v, // #548
+  Inst::kIdSrshr_v, // #549
+  Inst::kIdSrsra_v, // #550
+  Inst::kIdSsbb, // #551
+  Inst::kIdSshl_v, // #552
+  Inst::kIdSshll_v, // #553
+  Inst::kIdSshll2_v, // #554
+  Inst::kIdSshr_v, // #555
+  Inst::kIdSsra_v, // #556
+  Inst::kIdSsubl_v, // #557
+  Inst::kIdSsubl2_v, // #558
+  Inst::kIdSsubw_v, // #559
+  Inst::kIdSsubw2_v, // #560
+  Inst::kIdSt1_v, // #561
+  Inst::kIdSt2_v, // #562
+  Inst::kIdSt2g, // #563
+  Inst::kIdSt3_v, // #564
+  Inst::kIdSt4_v, // #565
+  Inst::kIdStadd, // #566
+  Inst::kIdStaddb, // #567
+  Inst::kIdStaddh, // #568
+  Inst::kIdStaddl, // #569
+  Inst::kIdStaddlb, // #570
+  Inst::kIdStaddlh, // #571
+  Inst::kIdStclr, // #572
+  Inst::kIdStclrb, // #573
+  Inst::kIdStclrh, // #574
+  Inst::kIdStclrl, // #575
+  Inst::kIdStclrlb, // #576
+  Inst::kIdStclrlh, // #577
+  Inst::kIdSteor, // #578
+  Inst::kIdSteorb, // #579
+  Inst::kIdSteorh, // #580
+  Inst::kIdSteorl, // #581
+  Inst::kIdSteorlb, // #582
+  Inst::kIdSteorlh, // #583
+  Inst::kIdStg, // #584
+  Inst::kIdStgm, // #585
+  Inst::kIdStgp, // #586
+  Inst::kIdStllr, // #587
+  Inst::kIdStllrb, // #588
+  Inst::kIdStllrh, // #589
+  Inst::kIdStlr, // #590
+  Inst::kIdStlrb, // #591
+  Inst::kIdStlrh, // #592
+  Inst::kIdStlxp, // #593
+  Inst::kIdStlxr, // #594
+  Inst::kIdStlxrb, // #595
+  Inst::kIdStlxrh, // #596
+  Inst::kIdStnp, // #597
+  Inst::kIdStnp_v, // #598
+  Inst::kIdStp, // #599
+  Inst::kIdStp_v, // #600
+  Inst::kIdStr, // #601
+  Inst::kIdStr_v, // #602
+  Inst::kIdStrb, // #603
+  Inst::kIdStrh, // #604
+  Inst::kIdStset, // #605
+  Inst::kIdStsetb, // #606
+  Inst::kIdStseth, // #607
+  Inst::kIdStsetl, // #608
+  Inst::kIdStsetlb, // #609
+  Inst::kIdStsetlh, // #610
+  Inst::kIdStsmax, // #611
+  Inst::kIdStsmaxb, // #612
+  Inst::kIdStsmaxh, // #613
+  Inst::kIdStsmaxl, // #614
+  Inst::kIdStsmaxlb, // #615
+  Inst::kIdStsmaxlh, // #616
+  Inst::kIdStsmin, // #617
+  Inst::kIdStsminb, // #618
+  Inst::kIdStsminh, // #619
+  Inst::kIdStsminl, // #620
+  Inst::kIdStsminlb, // #621
+  Inst::kIdStsminlh, // #622
+  Inst::kIdSttr, // #623
+  Inst::kIdSttrb, // #624
+  Inst::kIdSttrh, // #625
+  Inst::kIdStumax, // #626
+  Inst::kIdStumaxb, // #627
+  Inst::kIdStumaxh, // #628
+  Inst::kIdStumaxl, // #629
+  Inst::kIdStumaxlb, // #630
+  Inst::kIdStumaxlh, // #631
+  Inst::kIdStumin, // #632
+  Inst::kIdStuminb, // #633
+  Inst::kIdStuminh, // #634
+  Inst::kIdStuminl, // #635
+  Inst::kIdStuminlb, // #636
+  Inst::kIdStuminlh, // #637
+  Inst::kIdStur, // #638
+  Inst::kIdStur_v, // #639
+  Inst::kIdSturb, // #640
+  Inst::kIdSturh, // #641
+  Inst::kIdStxp, // #642
+  Inst::kIdStxr, // #643
+  Inst::kIdStxrb, // #644
+  Inst::kIdStxrh, // #645
+  Inst::kIdStz2g, // #646
+  Inst::kIdStzg, // #647
+  Inst::kIdStzgm, // #648
+  Inst::kIdSub, // #649
+  Inst::kIdSub_v, // #650
+  Inst::kIdSubg, // #651
+  Inst::kIdSubhn_v, // #652
+  Inst::kIdSubhn2_v, // #653
+  Inst::kIdSubp, // #654
+  Inst::kIdSubps, // #655
+  Inst::kIdSubs, // #656
+  Inst::kIdSudot_v, // #657
+  Inst::kIdSuqadd_v, // #658
+  Inst::kIdSvc, // #659
+  Inst::kIdSwp, // #660
+  Inst::kIdSwpa, // #661
+  Inst::kIdSwpab, // #662
+  Inst::kIdSwpah, // #663
+  Inst::kIdSwpal, // #664
+  Inst::kIdSwpalb, // #665
+  Inst::kIdSwpalh, // #666
+  Inst::kIdSwpb, // #667
+  Inst::kIdSwph, // #668
+  Inst::kIdSwpl, // #669
+  Inst::kIdSwplb, // #670
+  Inst::kIdSwplh, // #671
+  Inst::kIdSxtb, // #672
+  Inst::kIdSxth, // #673
+  Inst::kIdSxtl_v, // #674
+  Inst::kIdSxtl2_v, // #675
+  Inst::kIdSxtw, // #676
+  Inst::kIdSys, // #677
+  Inst::kIdTbl_v, // #678
+  Inst::kIdTbnz, // #679
+  Inst::kIdTbx_v, // #680
+  Inst::kIdTbz, // #681
+  Inst::kIdTlbi, // #682
+  Inst::kIdTrn1_v, // #683
+  Inst::kIdTrn2_v, // #684
+  Inst::kIdTst, // #685
+  Inst::kIdUaba_v, // #686
+  Inst::kIdUabal_v, // #687
+  Inst::kIdUabal2_v, // #688
+  Inst::kIdUabd_v, // #689
+  Inst::kIdUabdl_v, // #690
+  Inst::kIdUabdl2_v, // #691
+  Inst::kIdUadalp_v, // #692
+  Inst::kIdUaddl_v, // #693
+  Inst::kIdUaddl2_v, // #694
+  Inst::kIdUaddlp_v, // #695
+  Inst::kIdUaddlv_v, // #696
+  Inst::kIdUaddw_v, // #697
+  Inst::kIdUaddw2_v, // #698
+  Inst::kIdUbfiz, // #699
+  Inst::kIdUbfm, // #700
+  Inst::kIdUbfx, // #701
+  Inst::kIdUcvtf_v, // #702
+  Inst::kIdUdf, // #703
+  Inst::kIdUdiv, // #704
+  Inst::kIdUdot_v, // #705
+  Inst::kIdUhadd_v, // #706
+  Inst::kIdUhsub_v, // #707
+  Inst::kIdUmaddl, // #708
+  Inst::kIdUmax, // #709
+  Inst::kIdUmax_v, // #710
+  Inst::kIdUmaxp_v, // #711
+  Inst::kIdUmaxv_v, // #712
+  Inst::kIdUmin, // #713
+  Inst::kIdUmin_v, // #714
+  Inst::kIdUminp_v, // #715
+  Inst::kIdUminv_v, // #716
+  Inst::kIdUmlal_v, // #717
+  Inst::kIdUmlal2_v, // #718
+  Inst::kIdUmlsl_v, // #719
+  Inst::kIdUmlsl2_v, // #720
+  Inst::kIdUmmla_v, // #721
+  Inst::kIdUmnegl, // #722
+  Inst::kIdUmov_v, // #723
+  Inst::kIdUmsubl, // #724
+  Inst::kIdUmulh, // #725
+  Inst::kIdUmull, // #726
+  Inst::kIdUmull_v, // #727
+  Inst::kIdUmull2_v, // #728
+  Inst::kIdUqadd_v, // #729
+  Inst::kIdUqrshl_v, // #730
+  Inst::kIdUqrshrn_v, // #731
+  Inst::kIdUqrshrn2_v, // #732
+  Inst::kIdUqshl_v, // #733
+  Inst::kIdUqshrn_v, // #734
+  Inst::kIdUqshrn2_v, // #735
+  Inst::kIdUqsub_v, // #736
+  Inst::kIdUqxtn_v, // #737
+  Inst::kIdUqxtn2_v, // #738
+  Inst::kIdUrecpe_v, // #739
+  Inst::kIdUrhadd_v, // #740
+  Inst::kIdUrshl_v, // #741
+  Inst::kIdUrshr_v, // #742
+  Inst::kIdUrsqrte_v, // #743
+  Inst::kIdUrsra_v, // #744
+  Inst::kIdUsdot_v, // #745
+  Inst::kIdUshl_v, // #746
+  Inst::kIdUshll_v, // #747
+  Inst::kIdUshll2_v, // #748
+  Inst::kIdUshr_v, // #749
+  Inst::kIdUsmmla_v, // #750
+  Inst::kIdUsqadd_v, // #751
+  Inst::kIdUsra_v, // #752
+  Inst::kIdUsubl_v, // #753
+  Inst::kIdUsubl2_v, // #754
+  Inst::kIdUsubw_v, // #755
+  Inst::kIdUsubw2_v, // #756
+  Inst::kIdUxtb, // #757
+  Inst::kIdUxth, // #758
+  Inst::kIdUxtl_v, // #759
+  Inst::kIdUxtl2_v, // #760
+  Inst::kIdUzp1_v, // #761
+  Inst::kIdUzp2_v, // #762
+  Inst::kIdWfe, // #763
+  Inst::kIdWfi, // #764
+  Inst::kIdXaflag, // #765
+  Inst::kIdXar_v, // #766
+  Inst::kIdXpacd, // #767
+  Inst::kIdXpaci, // #768
+  Inst::kIdXpaclri, // #769
+  Inst::kIdXtn_v, // #770
+  Inst::kIdXtn2_v, // #771
+  Inst::kIdYield, // #772
+  Inst::kIdZip1_v, // #773
+  Inst::kIdZip2_v  // #774
+};
+
+const uint32_t InstDB::_inst_name_sorted_id_count = 775;
 // ----------------------------------------------------------------------------
 // ${NameData:End}
 #endif // !ASMJIT_NO_TEXT
